@@ -274,6 +274,29 @@ async fn tiny_roundtrip(client_port: u16, thost: &str, tport: u16, data: &[u8]) 
     Err("never-answered-in-3-attempts".into())
 }
 
+/// One datagram of `size` bytes (unique id) from a fresh socket: Ok(true) = came back whole and identical, Ok(false) = not delivered.
+async fn sized_roundtrip(nonce: u64, client_port: u16, thost: &str, tport: u16, tidx: u16, seq: u32, size: usize, wait: Duration) -> Result<bool, String> {
+    let s = UdpSocket::bind("127.0.0.1:0").await.map_err(|e| e.to_string())?;
+    let client: SocketAddr = format!("127.0.0.1:{client_port}").parse().unwrap();
+    let app = 50_000u16;
+    let p = make_payload(nonce, app, tidx, seq, size, 0);
+    if s.send_to(&socks5_udp(thost, tport, &p), client).await.is_err() {
+        return Ok(false); // larger than a UDP datagram can be: the application itself cannot send it
+    }
+    let mut buf = vec![0u8; 70000];
+    match tokio::time::timeout(wait, s.recv_from(&mut buf)).await {
+        Ok(Ok((n, _))) => {
+            let Some((_, _, payload)) = socks5_udp_parse(&buf[..n]) else { return Err("reply without SOCKS5-UDP header".into()) };
+            match check_payload(nonce, payload) {
+                Ok(id) if id.app == app && id.seq == seq && id.kind == 1 => Ok(true),
+                Ok(id) => Err(format!("reply for application {} seq {} arrived for seq {}", id.app, id.seq, seq)),
+                Err(e) => Err(format!("reply {e}")),
+            }
+        }
+        _ => Ok(false),
+    }
+}
+
 fn udp_matrix(seed: u64, thorough: bool) -> Vec<(Proto, Transport, usize)> {
     let mut v = Vec::new();
     for (i, m) in refimpl::ss::ALL_METHODS.iter().enumerate() {
@@ -394,6 +417,36 @@ async fn one_config(a: Args, idx: usize, proto: Proto, transport: Transport, use
                 rep.violation(format!("C02|{}|tiny-datagram-len{}:{}", cfgname, data.len(), crate::panicmon::normalise(&e)), format!("{}: a {}-byte datagram {}", cfgname, data.len(), e), json!({"seed": a.seed, "deploy": d.describe()}));
             }
         }
+    }
+    // the top of the size range: "from 0 up to the largest the path can carry" - whole or not at all, never shortened
+    if any_answered {
+        let step = if a.thorough { 1 } else { 3 };
+        let mut sizes: Vec<usize> = vec![40_000, 60_000, 65_000, 65_300];
+        sizes.extend((65_400..=65_497).step_by(step));
+        let before: u64 = targets.iter().map(|t| t.log.lock().unwrap().problems.len() as u64).sum();
+        let mut largest_ok = 0usize;
+        let mut refused = 0u32;
+        for (k, size) in sizes.iter().enumerate() {
+            match sized_roundtrip(nonce, d.client_port, &tinfo[0].2, tinfo[0].1, tinfo[0].0, 1_000_000 + k as u32, *size, Duration::from_millis(400)).await {
+                Ok(true) => {
+                    largest_ok = largest_ok.max(*size);
+                    rep.mon("near_maximum_datagrams_whole", 1);
+                }
+                Ok(false) => {
+                    refused += 1;
+                    rep.mon("near_maximum_datagrams_not_delivered", 1);
+                }
+                Err(e) => rep.violation(format!("C02|{}|near-maximum-size:{}", cfgname, crate::panicmon::normalise(&e)), format!("{}: a {}-byte datagram: {}", cfgname, size, e), json!({"seed": a.seed, "size": size, "deploy": d.describe()})),
+            }
+        }
+        // a shortened copy may have reached the target even if nothing came back
+        for t in &targets {
+            let g = t.log.lock().unwrap();
+            for p in g.problems.iter().skip(if t.idx == 0 { before as usize } else { g.problems.len() }) {
+                rep.violation(format!("C02|{}|near-maximum-size:target-side:{}", cfgname, crate::panicmon::normalise(p)), format!("{}: {}", cfgname, p), json!({"seed": a.seed, "deploy": d.describe()}));
+            }
+        }
+        rep.extra.insert(format!("largest_datagram_relayed:{cfgname}"), json!({"largest_whole": largest_ok, "not_delivered": refused, "probed": sizes.len()}));
     }
     rep.case(&(idx, "udp"), sent_total > 0);
     for (who, node) in [("client", &mut pair.client), ("server", &mut pair.server)] {
